@@ -235,8 +235,11 @@ func Cmp(ei, ej Object) int {
 	case STRING:
 		return cmp.Compare(ei.(String).Value, ej.(String).Value)
 
-	// RETURN, QUOTE, MACRO, ANY aren't expected to be compared.
-	case RETURN, QUOTE, MACRO, UNKNOWN, ANY:
+	case QUOTE: // quoted code compares by its (normalized) source text.
+		return cmp.Compare(ei.(Quote).Inspect(), ej.(Quote).Inspect())
+
+	// RETURN, MACRO, ANY aren't expected to be compared.
+	case RETURN, MACRO, UNKNOWN, ANY:
 		panic(fmt.Sprintf("Unexpected type in Cmp: %s", ti))
 	}
 	return 1
